@@ -386,8 +386,8 @@ func (f *Frame) sameContent(a, b Val, skip map[string]bool, env *SpecEnv) Term {
 }
 
 // VerifyLemma turns a lemma into one obligation.
-func VerifyLemma(w *World, lm *Lemma) *FuncReport {
-	rep := &FuncReport{Key: "L:" + lm.Name, Reveal: map[string]bool{}}
+func VerifyLemma(w *World, lm *Lemma) (rep *FuncReport) {
+	rep = &FuncReport{Key: "L:" + lm.Name, Reveal: map[string]bool{}}
 	for _, r := range lm.Reveal {
 		rep.Reveal[r] = true
 	}
